@@ -893,7 +893,7 @@ package main
 //@   at after call frStructName#0: T = c_M
 //@   at after call slice.Map#0: A = ret
 //@ func reToGo
-//@   trusted
+//@   props C03 C16
 //@   panics may
 // a lazy block (an if-branch) is a parameterless Go closure returning the block's value
 //@ func lbToGo
@@ -2531,9 +2531,11 @@ package main
 //@   loop slice.Collect#4/0 index i:
 //@     invariant grows: dsubset(old(domof(visited.Dict.Fdict)), domof(visited.Dict.Fdict)) && mapsframe_except(visited.Dict.Fdict)
 
+// a field access on a type that is not (yet) a record stays a field-access type carrying the same record type and field name
 //@ func faResolve
-//@   trusted
+//@   props C15 C16
 //@   panics may
+//@   ensures unresolved-kept: !is(FType_FRecord, fat.RecType) ==> is(FType_FFieldAccess, result) && FType_FFieldAccess_Value(result) == fat
 //@ func updateRecInfo
 //@   trusted
 //@   modifies maps
